@@ -1,0 +1,103 @@
+//go:build verif
+
+package litefs
+
+import "sync/atomic"
+
+// VerifHookSet holds callbacks used by external verification harnesses.
+// They are only compiled in with the "verif" build tag.
+type VerifHookSet struct {
+	// PageWrite is called at entry of writeDatabasePage, before the write.
+	PageWrite func(db *DB, pgno uint32, data []byte, invalidate bool)
+	// Truncate is called at entry of truncateDatabase, before the truncate.
+	Truncate func(db *DB, pageN uint32)
+}
+
+var verifHooks atomic.Pointer[VerifHookSet]
+
+// SetVerifHooks installs (or clears, with nil) the process-wide hook set.
+func SetVerifHooks(h *VerifHookSet) { verifHooks.Store(h) }
+
+func verifPageWrite(db *DB, pgno uint32, data []byte, invalidate bool) {
+	if h := verifHooks.Load(); h != nil && h.PageWrite != nil {
+		h.PageWrite(db, pgno, data, invalidate)
+	}
+}
+
+func verifTruncate(db *DB, pageN uint32) {
+	if h := verifHooks.Load(); h != nil && h.Truncate != nil {
+		h.Truncate(db, pageN)
+	}
+}
+
+// VerifOnLockStateChange installs fn as the state-change callback of all
+// twelve SQLite locks of the database. Each assignment is made under the
+// lock's own mutex so it may be called while the locks are in use.
+func (db *DB) VerifOnLockStateChange(fn func(lockType LockType, prev, next RWMutexState)) {
+	for _, x := range []struct {
+		rw  *RWMutex
+		typ LockType
+	}{
+		{&db.pendingLock, LockTypePending},
+		{&db.sharedLock, LockTypeShared},
+		{&db.reservedLock, LockTypeReserved},
+		{&db.writeLock, LockTypeWrite},
+		{&db.ckptLock, LockTypeCkpt},
+		{&db.recoverLock, LockTypeRecover},
+		{&db.read0Lock, LockTypeRead0},
+		{&db.read1Lock, LockTypeRead1},
+		{&db.read2Lock, LockTypeRead2},
+		{&db.read3Lock, LockTypeRead3},
+		{&db.read4Lock, LockTypeRead4},
+		{&db.dmsLock, LockTypeDMS},
+	} {
+		rw, typ := x.rw, x.typ
+		rw.mu.Lock()
+		if fn == nil {
+			rw.OnLockStateChange = nil
+		} else {
+			rw.OnLockStateChange = func(prev, next RWMutexState) { fn(typ, prev, next) }
+		}
+		rw.mu.Unlock()
+	}
+}
+
+// VerifLockState returns the state of one of the database's locks.
+func (db *DB) VerifLockState(lockType LockType) RWMutexState {
+	switch lockType {
+	case LockTypePending:
+		return db.pendingLock.State()
+	case LockTypeShared:
+		return db.sharedLock.State()
+	case LockTypeReserved:
+		return db.reservedLock.State()
+	case LockTypeWrite:
+		return db.writeLock.State()
+	case LockTypeCkpt:
+		return db.ckptLock.State()
+	case LockTypeRecover:
+		return db.recoverLock.State()
+	case LockTypeRead0:
+		return db.read0Lock.State()
+	case LockTypeRead1:
+		return db.read1Lock.State()
+	case LockTypeRead2:
+		return db.read2Lock.State()
+	case LockTypeRead3:
+		return db.read3Lock.State()
+	case LockTypeRead4:
+		return db.read4Lock.State()
+	case LockTypeDMS:
+		return db.dmsLock.State()
+	}
+	return RWMutexStateUnlocked
+}
+
+// VerifHaltLockID returns the ID of the halt lock held locally (on behalf of
+// a remote node), or zero.
+func (db *DB) VerifHaltLockID() int64 {
+	if curr := db.haltLockAndGuard.Load().(*haltLockAndGuard); curr != nil {
+		return curr.haltLock.ID
+	}
+	return 0
+}
